@@ -204,8 +204,11 @@ async def main():
     try:
         if ex == "cancel":
             t = asyncio.create_task(body())
+            due = time.monotonic() + case.get("cancel_after", 0.6)
             await asyncio.sleep(case.get("cancel_after", 0.6))
-            marks["exit_start"] = time.monotonic()
+            # counted from the moment the cancellation was due (like the deadline of fail_after): a library task that
+            # keeps the loop to itself delays this very timer, and that delay is part of what leaving costs
+            marks["exit_start"] = min(due, time.monotonic())
             t.cancel()
             try:
                 await t
